@@ -60,6 +60,27 @@ impl DiagnosticItem {
     }
 }
 
+impl DiagnosticItem {
+    /// Sort diagnostics for display: by file name, then by position, then by
+    /// title and description.
+    ///
+    /// The file ids are random and several diagnostics can share a range, so
+    /// sorting by id and range alone gives a different order in every run.
+    pub fn sort_for_display<T: crate::reader::FileReader>(
+        items: &mut [DiagnosticItem],
+        reader: &T,
+    ) {
+        items.sort_by_cached_key(|item| {
+            (
+                reader.get_filename(item.file),
+                item.range.clone(),
+                item.title.clone(),
+                item.description.clone(),
+            )
+        });
+    }
+}
+
 impl PartialEq for DiagnosticItem {
     fn eq(&self, other: &Self) -> bool {
         self.range == other.range && self.file == other.file
